@@ -203,6 +203,11 @@ SEQUENCE_decode_oer(const asn_codec_ctx_t *opt_codec_ctx,
 
                 memb_ptr2 = element_ptrptr(st, elm, &save_memb_ptr);
 
+                if(!elm->type->op->oer_decoder) {
+                    ASN_DEBUG("OER decoder is not defined for type %s",
+                              elm->type->name);
+                    RETURN(RC_FAIL);
+                }
                 rval = elm->type->op->oer_decoder(
                     opt_codec_ctx, elm->type,
                     elm->encoding_constraints.oer_constraints, memb_ptr2, ptr,
